@@ -36,9 +36,10 @@ ASSUMPTIONS = ["primitive sets: every primitive has arity >= 1, every terminal a
                "the two parents of a crossover are distinct objects (algorithms.varAnd clones them; cxOnePoint(t, t) "
                "assigns two slices of the same list and can leave an incomplete expression — outside the statement's "
                "'every pair of such trees')",
-               "the trees given to an operator wrapped by staticLimit are its leading POSITIONAL arguments (the wrapper keeps "
-               "copies of the first len(result) positional arguments; trees passed by keyword leave that pool empty — out "
-               "of domain); the other parameters may be positional or keywords, both are exercised"]
+               "an operator wrapped by staticLimit gets at least its first tree POSITIONALLY (the wrapper keeps copies of the "
+               "leading positional arguments as fall-back parents; with every tree passed by keyword that pool is empty "
+               "and an over-limit child makes it raise — out of domain); the second parent of a crossover and the other "
+               "parameters may be positional or keywords, all forms are exercised"]
 MIN_CASES = 2000
 CASE_TIMEOUT = 10
 EXPLANATION = ("Closure theorems for every `.ok` result, and totality theorems (gen_total, cx_total, cxlb_total, mut*_total): on "
@@ -710,11 +711,14 @@ def evaluate(d):
     btok = [ps.nodes_tok(t) for t in trees]
     if k == "cx":
         fn, optoks = gp.cxOnePoint, "cx %s %s" % tuple(btok)
-        call = lambda f: f(trees[0], trees[1])
+        call = (lambda f: f(trees[0], ind2=trees[1])) if d.get("kw2") else (lambda f: f(trees[0], trees[1]))
     elif k == "cxlb":
         fn, optoks = gp.cxOnePointLeafBiased, "cxlb %s %s %s" % (btok[0], btok[1], fbits(d["termpb"]))
-        call = (lambda f: f(trees[0], trees[1], d["termpb"])) if d.get("pos") else \
-            (lambda f: f(trees[0], trees[1], termpb=d["termpb"]))
+        if d.get("kw2"):        # the second parent by keyword: mate(ind1, ind2=ind2, termpb=...)
+            call = lambda f: f(trees[0], ind2=trees[1], termpb=d["termpb"])
+        else:
+            call = (lambda f: f(trees[0], trees[1], d["termpb"])) if d.get("pos") else \
+                (lambda f: f(trees[0], trees[1], termpb=d["termpb"]))
     elif k == "mutu":
         import functools
         expr = functools.partial(GEN[d["emode"]], min_=d["emn"], max_=d["emx"])
@@ -742,7 +746,9 @@ def evaluate(d):
         if maxv < 0:
             maxv = 0
         fn = gp.staticLimit(key=key, max_value=maxv)(fn)
-        optoks = "slim %s %d %s" % (lim["key"], maxv, optoks)
+        # how many of the trees are positional: only those are kept as fall-back parents, every child is measured
+        npos = 1 if d.get("kw2") else len(trees)
+        optoks = "slim %s %d %d %s" % (lim["key"], maxv, npos, optoks)
     with MyTape(rng=random.Random(d["seed"])) as tp:
         try:
             out = list(call(fn))
@@ -794,7 +800,8 @@ def evaluate(d):
         l2, e2, orc = observe_lines(ps, out[0], limit=12, rnd=random.Random(d["seed"]))
         lines += l2
         expect += e2
-    tag = "%s%s%s/%s/%s" % (k, "+lim" if lim else "", "+pos" if d.get("pos") else "", d["ps"], "changed" if changed else "same")
+    tag = "%s%s%s%s/%s/%s" % (k, "+lim" if lim else "", "+pos" if d.get("pos") else "", "+kw2" if d.get("kw2") else "",
+                            d["ps"], "changed" if changed else "same")
     if k == "mutu":
         tag += "/" + d["emode"]
     return Case(d, lines, expect, orc, tag=tag, nontrivial=changed)
@@ -845,6 +852,8 @@ def op_desc(rng, ps, k):
         d["mode"] = rng.choice(["one", "all"])
     # the non-tree parameters (termpb, expr, pset, mode) positionally or by keyword
     d["pos"] = rng.random() < 0.5
+    if k in ("cx", "cxlb"):
+        d["kw2"] = rng.random() < 0.35      # the second parent passed by keyword (ind2=...)
     return d
 
 
